@@ -342,7 +342,10 @@ class TokenizerState:
         endprog.join(self, end)
         self.pos = end
         epos = (self.lnum, end)
-        return TokenInfo(tok, endprog.text, endprog.start, epos, endprog.contline)
+        contline = endprog.contline
+        if self.lnum != endprog.start[0]:  # token ends on a later line than it started on
+            contline += self.line
+        return TokenInfo(tok, endprog.text, endprog.start, epos, contline)
 
     def match(self, pattern: str | re.Pattern[str]) -> re.Match[str] | None:
         pattern = _compile(pattern) if isinstance(pattern, str) else pattern
@@ -366,7 +369,7 @@ class TokenizerState:
     def pop_mode(self, end: tuple[int, int] | None = None) -> EndProg:
         prog = self.end_progs.pop()
         if self.end_progs and end:
-            self.end_progs[-1].reset(end)
+            self.end_progs[-1].reset(end, self.line)
         return prog
 
     def at_parenlev(self) -> bool:
@@ -396,12 +399,13 @@ class EndProg:
 
     def join_line(self, state: TokenizerState) -> None:
         self.text += state.line[state.pos :]
-        self.contline += state.line
+        if state.lnum != self.start[0]:  # the line the token starts on is already there
+            self.contline += state.line
 
-    def reset(self, start: tuple[int, int]) -> None:
+    def reset(self, start: tuple[int, int], line: str = "") -> None:
         self.start = start
         self.text = ""
-        self.contline = ""
+        self.contline = line
 
 
 def next_statement(state: TokenizerState) -> Generator[TokenInfo, None, bool | None]:
